@@ -265,6 +265,13 @@ pub fn tree_calls(s: &Subject, others: &[Subject]) -> Vec<(String, String, &'sta
     r!("print", String::new(), |c: &mut Tree| c.print());
     r!("print_debug", String::new(), |c: &mut Tree| c.print_debug());
     r!("to_file-unwritable", String::new(), |c: &mut Tree| c.to_file(std::path::Path::new("/nonexistent-dir/x.nwk")));
+    // a device that opens but refuses data (a full disk): the failure must come back as an error value, never as Ok
+    if std::path::Path::new("/dev/full").exists() && t.to_newick().map_or(false, |s| !s.is_empty()) {
+        let mut c = t.clone();
+        let rr = guarded(AssertUnwindSafe(|| match c.to_file(std::path::Path::new("/dev/full")) { Ok(_) => "unstable", Err(_) => "err" }));
+        let _ = &mut c;
+        push("to_file-on-a-full-device reported success", String::new(), rr);
+    }
     r!("from_file-missing", String::new(), |_c: &mut Tree| Tree::from_file(std::path::Path::new("/nonexistent-dir/x.nwk")));
     r!("to_file;from_file", String::new(), |c: &mut Tree| {
         let path = std::env::temp_dir().join(format!("pvh-c20-{}-{:p}.nwk", std::process::id(), c as *const Tree));
@@ -505,7 +512,7 @@ pub fn run(thorough: bool, seed: u64, driver: &str, rep: &mut Report) {
                 rep.oracle("no-panic", &format!("{f}@{sig_subject}"), &format!("subject: {}\nbuilt by: {}\ncall: {f}({arg})", s.name, s.build), "panic");
             }
             if *c == "unstable" {
-                rep.oracle("repeatable", &format!("{f}@{sig_subject}"), &format!("subject: {}\nbuilt by: {}\ncall: {f}({arg})", s.name, s.build), "the second call on the same object answered differently from the first");
+                rep.oracle(if f.contains("full-device") { "io-error" } else { "repeatable" }, &format!("{f}@{sig_subject}"), &format!("subject: {}\nbuilt by: {}\ncall: {f}({arg})", s.name, s.build), "the second call on the same object answered differently from the first");
             }
         }
         // model tie on outcome classes, for subjects the arena model can load
